@@ -37,6 +37,7 @@ class BatcherRoles:
     def __init__(self, ctx: Ctx):
         p = ctx.program
         u = p.unit(FILE)
+        self.u = u
         self.p = p
         self.cls = None
         for c in u.classes():
@@ -314,6 +315,8 @@ def _not_ise(e: Edge) -> bool:
 
 def c04(ctx: Ctx) -> None:
     r = BatcherRoles(ctx)
+    from .common import rule_unbound
+    rule_unbound(ctx, 'C04-U1', [s_ for s_ in r.u.functions() if s_.enclosing_class() is r.cls and s_.enclosing_function() is None], 'AsyncBackgroundBatcher')
     g = r.gproc
     ctx.trusted += ['asyncio.Future / Task scheduling', 'no caller is cancelled (cancellation is C09)']
     ctx.rule('C04-B1', 'the future completed with a yielded result is looked up in the per-batch dict with the yielded key of the same iteration', 2)
@@ -576,6 +579,8 @@ def _done_guarded(g: CFG, c: Node) -> bool:
 
 def c09(ctx: Ctx) -> None:
     r = BatcherRoles(ctx)
+    from .common import rule_unbound
+    rule_unbound(ctx, 'C09-U1', [s_ for s_ in r.u.functions() if s_.enclosing_class() is r.cls and s_.enclosing_function() is None], 'AsyncBackgroundBatcher')
     gc, g = r.gcall, r.gproc
     ctx.trusted += ['Task.cancel() cancels the future the task is awaiting; asyncio.shield semantics']
     ctx.rule('C09-R1', 'every await of a future shared through the retention cache is behind a cancellation barrier (asyncio.shield / proxy)', 1)
@@ -652,6 +657,8 @@ def c09(ctx: Ctx) -> None:
 
 def c10(ctx: Ctx) -> None:
     r = BatcherRoles(ctx)
+    from .common import rule_unbound
+    rule_unbound(ctx, 'C10-U1', [s_ for s_ in r.u.functions() if s_.enclosing_class() is r.cls and s_.enclosing_function() is None], 'AsyncBackgroundBatcher')
     g = r.gasm
     p = r.p
     ctx.trusted += ['asyncio.Queue FIFO order, asyncio.Semaphore, wait_for']
@@ -902,6 +909,8 @@ def c10(ctx: Ctx) -> None:
 
 def c11(ctx: Ctx) -> None:
     r = BatcherRoles(ctx)
+    from .common import rule_unbound
+    rule_unbound(ctx, 'C11-U1', [s_ for s_ in r.u.functions() if s_.enclosing_class() is r.cls and s_.enclosing_function() is None], 'AsyncBackgroundBatcher')
     g = r.gcall
     p = r.p
     ctx.trusted += ['loop.call_later fires after the delay', 'Queue.put on an unbounded queue does not suspend']
@@ -1091,6 +1100,8 @@ def option_decorators(p) -> List[Scope]:
 
 def c15(ctx: Ctx) -> None:
     p = ctx.program
+    from .common import rule_unbound
+    rule_unbound(ctx, 'C15-U1', [p.func(FILE, n_) for n_ in ('threadsafe_async_cache', 'buffer_until_timeout', 'async_background_batcher')], 'the option decorators')
     ctx.trusted += ['functools.partial', 'WeakKeyDictionary']
     ctx.rule('C15-R1', 'the partial returned for `func is None` re-binds exactly the keyword-only options, each to the same-named parameter', 3)
     ctx.rule('C15-R2', 'every option reaches its point of use in the direct form (def-use chains)', 6)
